@@ -393,7 +393,7 @@ static void print_state(FILE *f, const int *s)
 /* ---------------------------------------------------------------- one run */
 typedef struct {
    long calls, dtx_packets, tiny_nodtx, runs, onset_checked, resume_checked, off_checked, gray_tiny, dec_checked;
-   long silk_dtx_packets, multi_dtx_packets, lowb_calls, cfg_gen, cfg_silk, refresh_seen, bad_coh, mixed_runs, scen_runs, bust_packets, shape_checked, tie_dtx, tie_silk_dtx, tie_multi_dtx, tie_lowb, tie_indtx;
+   long silk_dtx_packets, multi_dtx_packets, lowb_calls, cfg_gen, cfg_silk, refresh_seen, bad_coh, mixed_runs, scen_runs, bust_packets, shape_checked, silk_onset_checked, silk_onset_max, tie_dtx, tie_silk_dtx, tie_multi_dtx, tie_lowb, tie_indtx;
    long violations;
 } stats;
 static stats S;
@@ -403,6 +403,9 @@ static int g_tie, g_verbose, g_metrics;
 #endif
 #ifndef C20_ACT_MIN_DB
 #define C20_ACT_MIN_DB (-12.0)
+#endif
+#ifndef C20_SILK_ONSET_MAX_MS
+#define C20_SILK_ONSET_MAX_MS 600
 #endif
 #ifndef C20_ACT_MAX_DB
 #define C20_ACT_MAX_DB (6.0)
@@ -653,6 +656,7 @@ static void do_run(uint64_t subseed, int tier_long, const runcfg *preset)
    /* ------------------------------------------------ property predicates on the implementation */
    if (!g_tie) {
       int Fq1 = 5 * c.q;
+      long sil_start_q1 = -1; int silk_sil_seen = 0;   /* SILK-regime digital silence stretch: start time, DTX seen */
       long t_stop_q1 = 0;       /* end of the last coded sub-frame whose activity decision was != 0 (Q1 ms) */
       int run_len_q1 = 0, run_first = -1, seen_dtx_since_stop = 0, run_regime = 0, run_mixed = 0;
       float *out = (float *)calloc((size_t)fsz * c.ch, sizeof(float));
@@ -705,6 +709,24 @@ static void do_run(uint64_t subseed, int tier_long, const runcfg *preset)
             if (cr->post[2] && cr->vad_active) witness("dtx_resume", subseed, i, "SILK VAD flag 1 in the packet, yet len=%d", cr->len);
          }
          if (cr->any_active && !cr->lowb) S.resume_checked++;
+         /* onset of SILK's own DTX on digital silence (the analysis does not run: SILK's detector is in charge;
+            SILK or hybrid mode, so that the detector exists): a DTX packet must start within the calibrated
+            number of milliseconds (theory: NB_SPEECH_FRAMES_BEFORE_DTX + 7 SILK frames + resampler/high-pass tail) */
+         if (cr->dtx_on && !analysis_on && !cr->lowb && pure) {
+            int silkish = mode_tok(cr->mode_after) == 1 || mode_tok(cr->mode_after) == 2;
+            if (cr->digsil && silkish && cr->post[2]) {
+               if (sil_start_q1 < 0) { sil_start_q1 = t0; silk_sil_seen = 0; }
+               if (tiny && !silk_sil_seen) {
+                  silk_sil_seen = 1; S.silk_onset_checked++;
+                  if (g_metrics) printf("# metric silk_onset_q1=%ld q=%d fs=%d\n", t0 - sil_start_q1, c.q, c.fs);
+                  if ((t0 - sil_start_q1) > S.silk_onset_max) S.silk_onset_max = t0 - sil_start_q1;
+               }
+               if (!silk_sil_seen && t0 - sil_start_q1 > 2 * C20_SILK_ONSET_MAX_MS) {
+                  witness("silk_dtx_onset", subseed, i, "SILK's detector in charge, digital silence for %ld/2 ms (%d-unit packets), no DTX packet yet (calibrated limit %d ms)", t0 - sil_start_q1, c.q, C20_SILK_ONSET_MAX_MS);
+                  silk_sil_seen = 1;
+               }
+            } else sil_start_q1 = -1;
+         }
          /* run bound */
          if (tiny && !cr->lowb && cr->dtx_on) {
             if (run_first < 0) { run_first = i; run_len_q1 = 0; S.runs++; run_regime = cr->post[2]; run_mixed = 0; }
@@ -830,8 +852,8 @@ int main(int argc, char **argv)
       printf("# tie-dist calls=%ld dtx_packets=%ld silk_dtx_packets=%ld multiframe_dtx_packets=%ld lowbudget_calls=%ld in_dtx_answers_1=%ld cfg_generalised=%ld cfg_silkdtx=%ld incoherent_valid=%ld silk_bust_packets=%ld\n",
              S.calls, S.tie_dtx, S.tie_silk_dtx, S.tie_multi_dtx, S.tie_lowb, S.tie_indtx, S.cfg_gen, S.cfg_silk, S.bad_coh, S.bust_packets);
    else
-   printf("# stats calls=%ld dtx_packets=%ld silk_dtx=%ld multiframe_dtx=%ld runs=%ld refresh=%ld onset_checked=%ld resume_checked=%ld off_checked=%ld gray_tiny=%ld lowbudget_calls=%ld dec_checked=%ld cfg_generalised=%ld cfg_silkdtx=%ld incoherent_valid=%ld mixed_detector_runs=%ld scenario_runs=%ld silk_bust_packets=%ld shape_checked=%ld violations=%ld\n",
+   printf("# stats calls=%ld dtx_packets=%ld silk_dtx=%ld multiframe_dtx=%ld runs=%ld refresh=%ld onset_checked=%ld resume_checked=%ld off_checked=%ld gray_tiny=%ld lowbudget_calls=%ld dec_checked=%ld cfg_generalised=%ld cfg_silkdtx=%ld incoherent_valid=%ld mixed_detector_runs=%ld scenario_runs=%ld silk_bust_packets=%ld shape_checked=%ld silk_onset_checked=%ld silk_onset_max_q1=%ld violations=%ld\n",
           S.calls, S.dtx_packets, S.silk_dtx_packets, S.multi_dtx_packets, S.runs, S.refresh_seen, S.onset_checked, S.resume_checked, S.off_checked,
-          S.gray_tiny, S.lowb_calls, S.dec_checked, S.cfg_gen, S.cfg_silk, S.bad_coh, S.mixed_runs, S.scen_runs, S.bust_packets, S.shape_checked, S.violations);
+          S.gray_tiny, S.lowb_calls, S.dec_checked, S.cfg_gen, S.cfg_silk, S.bad_coh, S.mixed_runs, S.scen_runs, S.bust_packets, S.shape_checked, S.silk_onset_checked, S.silk_onset_max, S.violations);
    return 0;
 }
